@@ -39,8 +39,10 @@ Section Origin.
   Lemma orig_continue_loop : forall r fuel s s' o x, _continue_backlog_loop fuel s r = (s', o, x) -> Forall orig o.
   Proof.
     intros r. induction fuel as [|f IH]; intros s s' o x H; cbn [_continue_backlog_loop] in H; [invpairs; constructor|].
-    destruct (exchanges s); [|invpairs; constructor]. destruct (has_exchange r l); [invpairs; constructor|].
-    destruct (alookup Z.eqb r (backlogs s)) as [[|[w m] rest]|]; try (invpairs; repeat constructor; fail).
+    destruct (exchanges s); [|invpairs; constructor].
+    destruct (alookup Z.eqb r (backlogs s)) as [bl|]; [|invpairs; constructor].
+    destruct (has_exchange r l); [invpairs; constructor|].
+    destruct bl as [|[w m] rest]; [invpairs; constructor|].
     destruct (_send_initially _ r w (Some m)) as [s1 o1] eqn:S. apply orig_send_initially in S.
     destruct (_continue_backlog_loop f s1 r) as [[s2 o2] x2] eqn:L. apply IH in L. invpairs. apply Forall_app; split; assumption.
   Qed.
@@ -117,8 +119,7 @@ Section Origin.
     intros s r mid s' o Ha H. unfold _retransmit in H. destruct (exchanges s); [|invpairs; constructor].
     destruct (alookup rm_eqb (r, mid) l); [|invpairs; repeat constructor].
     destruct (ex_counter e <? 4).
-    - destruct (_send_via_transport _ r (ex_msg e)) as [s2 o2] eqn:S. apply orig_send_via_transport in S.
-      destruct (exchanges s2); invpairs; [exact S|]. apply Forall_app. split; [exact S|repeat constructor].
+    - eapply orig_send_via_transport; eauto.
     - destruct (amem Z.eqb r _); [|invpairs; repeat constructor].
       eapply orig_tm_dispatch_error in H; [exact H|exact Ha].
   Qed.
